@@ -136,7 +136,8 @@ example : ZeroAnnihilates intOps ∧ List.Forall₂ (AgreeUpTo intOps 2 3 2 Toy.
     intOps.excelConv 2 3 Toy.excel Toy.x ≠ intOps.excelConv 2 3 Toy.excel Toy.x' := by
   refine ⟨⟨fun s => Int.zero_ediv s, fun v => Int.zero_mul v⟩, ?_, by decide⟩
   refine List.Forall₂.cons ?_ (List.Forall₂.cons ?_ List.Forall₂.nil) <;>
-    exact ⟨by decide, by decide, by decide, by decide, by decide⟩
+    exact ⟨by decide, by decide, by decide, by unfold TOps.DiamUnderflow; decide,
+      by unfold TOps.DiamUnderflow; decide⟩
 
 /-! ### shapes and shape rejections -/
 
